@@ -16,7 +16,7 @@ PROPERTY_LEVEL = {
     "garbled", "process-died", "hang", "unsupported",
 }
 
-ALL_TAGS = {"core", "lat", "agg", "sugar", "mac"}
+ALL_TAGS = {"core", "lat", "agg", "sugar", "mac"}     # (BYODS programs are judged by C10-C12)
 
 PLANS = {
     "C01": dict(tags={"core"}, variants=["ser", "to"], cap={"quick": 400, "thorough": 3000},
@@ -34,6 +34,12 @@ PLANS = {
                 what="sugared program vs its hand-written core expansion"),
     "C08": dict(tags={"mac"}, variants=["ser", "exp", "par", "exppar"], cap={"quick": 120, "thorough": 1000},
                 what="program with in-program macros vs its hand-written hygienic expansion"),
+    "C10": dict(tags={"ds10"}, variants=["ser", "par", "pari"], cap={"quick": 500, "thorough": 4000},
+                what="eqrel provider: history-interpreter programs (facts arriving over several iterations, several keys, keys that pause and resume), every bound/free access pattern inside the recursive SCC and in later strata, joins, negation, aggregation; binary form also parallel"),
+    "C11": dict(tags={"ds11"}, variants=["ser"], cap={"quick": 500, "thorough": 4000},
+                what="trrel provider: history-interpreter programs, every access pattern inside the recursive SCC and in later strata"),
+    "C12": dict(tags={"ds12"}, variants=["ser"], cap={"quick": 500, "thorough": 4000},
+                what="trrel_uf provider: history-interpreter programs, every access pattern inside the recursive SCC and in later strata"),
     "C09": dict(tags={"pack"}, variants=["ser", "run", "mrt", "gen", "src0", "src1", "src2", "redecl", "init", "to",
                                          "runpar", "srcpar"],
                 cap={"quick": 50, "thorough": 400}, what="packaging variants of one logical program"),
@@ -66,14 +72,19 @@ def run(pid, tier, seed, replay=None):
     progs_all, mods, shards = semlib.load_corpus()
     work = os.path.join(vlib.BUILD, "work", pid)
     t0 = time.time()
-    rc, txt, bindir = semlib.build_corpus(shards)
+    sel = [p for p in progs_all if set(p["tags"]) & plan["tags"]]
+    crates = {mods[(p["name"], v)] for p in sel for v in plan["variants"] if (p["name"], v) in mods}
+    rc, txt, bindir = semlib.build_corpus(shards, crates)
     if rc != 0:
         # the corpus consists of well-formed programs inside the documented language: failing to compile is an observation
-        out.violation({"property": pid, "engine": "sem", "summary": "a well-formed corpus program no longer compiles against /repo",
-                       "compiler_output": txt[-4000:]})
+        import re
+        errs = re.findall(r"^error[^\n]*\n\s+--> [^\n]*", txt, re.M)
+        out.violation({"property": pid, "engine": "sem", "kind": "does-not-compile",
+                       "summary": "a well-formed corpus program does not compile against /repo: " + "; ".join(e.replace("\n", " ") for e in errs[:3]),
+                       "compiler_output": txt[-6000:]})
         out.rule = "build of the program corpus"
+        out.evaluations = 1
         return out
-    sel = [p for p in progs_all if set(p["tags"]) & plan["tags"]]
     if tier == "thorough":
         sel = [thorough_bounds(p) for p in sel]
     if replay:
